@@ -1,0 +1,353 @@
+//go:build verif
+
+// Package verif is the bridge between fs_db's internal packages and the external
+// verification harness (which, living in another module, cannot import internal/...).
+// It only exists in builds with the tag "verif".
+package verif
+
+import (
+	"context"
+	"errors"
+	"fmt"
+	"io"
+	"net"
+	"sort"
+	"time"
+
+	"github.com/glebziz/fs_db"
+	"github.com/glebziz/fs_db/config"
+	adapterErrors "github.com/glebziz/fs_db/internal/adapter/errors"
+	"github.com/glebziz/fs_db/internal/app"
+	"github.com/glebziz/fs_db/internal/db/badger"
+	"github.com/glebziz/fs_db/internal/model"
+	modelCore "github.com/glebziz/fs_db/internal/model/core"
+	"github.com/glebziz/fs_db/internal/model/sequence"
+	"github.com/glebziz/fs_db/internal/model/transactor"
+	fileRepo "github.com/glebziz/fs_db/internal/repository/file"
+	"github.com/glebziz/fs_db/internal/utils/async"
+	"github.com/glebziz/fs_db/internal/utils/grpc/streamreader"
+	"github.com/glebziz/fs_db/internal/utils/grpc/streamwriter"
+	utilsOs "github.com/glebziz/fs_db/internal/utils/os"
+	"github.com/glebziz/fs_db/internal/utils/wpool"
+	"github.com/glebziz/fs_db/internal/verifhook"
+	inlineDb "github.com/glebziz/fs_db/pkg/inline/db"
+)
+
+// ErrNoSpace is the error a content file write returns when the disk is full.
+var ErrNoSpace error = utilsOs.ErrNotEnoughSpace
+
+// SetAt installs the observation-point hook.
+func SetAt(f func(point string)) { verifhook.AtFn = f }
+
+// SetMut installs the persistent-mutation hook.
+func SetMut(f func(kind, target string)) { verifhook.MutFn = f }
+
+// SetWriteFault installs the content-write fault hook.
+func SetWriteFault(f func(path string, p []byte) (int, error, bool)) { verifhook.WriteFaultFn = f }
+
+// SetDiskFree installs the free-space override.
+func SetDiskFree(f func(root string, real uint64) uint64) { verifhook.DiskFreeFn = f }
+
+// GC runs one pass of the old-version collector of an inline database.
+func GC(db fs_db.DB) error {
+	c := inlineDb.ContainerOf(db)
+	if c == nil {
+		return errors.New("verif: not an inline database")
+	}
+
+	return c.Cleaner().DeleteOld(context.Background())
+}
+
+// Version is one entry of a per-key version list.
+type Version struct {
+	Seq uint64
+	Cid string
+	Tx  string
+}
+
+// State is the projection of the in-memory index and the registry of an inline database.
+type State struct {
+	// Stores maps a transaction id (model.MainTxId for committed data, "all" for the all-store)
+	// to its per-key version lists in list order.
+	Stores   map[string]map[string][]Version
+	MirrorOK bool
+	// Registry lists the open transactions in registry (begin) order.
+	Registry []RegEntry
+	MainTxId string
+}
+
+// RegEntry is one open transaction.
+type RegEntry struct {
+	Id    string
+	Level int
+	Seq   uint64
+}
+
+// Project returns the internal state of an inline database.
+func Project(db fs_db.DB) (State, error) {
+	c := inlineDb.ContainerOf(db)
+	if c == nil {
+		return State{}, errors.New("verif: not an inline database")
+	}
+
+	vs, ok := c.Core().VerifVersions()
+	st := State{Stores: make(map[string]map[string][]Version, len(vs)), MirrorOK: ok, MainTxId: model.MainTxId}
+	for id, byKey := range vs {
+		st.Stores[id] = make(map[string][]Version, len(byKey))
+		for key, files := range byKey {
+			l := make([]Version, len(files))
+			for i, f := range files {
+				l[i] = Version{Seq: uint64(f.Seq), Cid: f.ContentId, Tx: f.TxId}
+			}
+			st.Stores[id][key] = l
+		}
+	}
+
+	for _, tx := range c.TransactionRepo().VerifAll() {
+		st.Registry = append(st.Registry, RegEntry{Id: tx.Id, Level: int(tx.IsoLevel), Seq: uint64(tx.Seq)})
+	}
+
+	return st, nil
+}
+
+// Records lists the persistent records of an inline database: version records
+// (content id -> seq, tx, key) and content records (content id -> directory).
+func Records(db fs_db.DB) (files map[string]Version, keys map[string]string, contents map[string]string, err error) {
+	c := inlineDb.ContainerOf(db)
+	if c == nil {
+		return nil, nil, nil, errors.New("verif: not an inline database")
+	}
+
+	all, err := c.FileRepo().GetAll(context.Background())
+	if err != nil {
+		return nil, nil, nil, err
+	}
+
+	files = make(map[string]Version, len(all))
+	keys = make(map[string]string, len(all))
+	for _, f := range all {
+		files[f.ContentId] = Version{Seq: uint64(f.Seq), Cid: f.ContentId, Tx: f.TxId}
+		keys[f.ContentId] = f.Key
+	}
+
+	items, err := c.Badger().GetAll([]byte("fileContent/"))
+	if err != nil {
+		return nil, nil, nil, err
+	}
+
+	contents = make(map[string]string, len(items))
+	for _, it := range items {
+		contents[string(it.Key[len("fileContent/"):])] = string(it.Value)
+	}
+
+	return files, keys, contents, nil
+}
+
+// CurrentSeq returns the value of the process-wide sequence counter without advancing it.
+func CurrentSeq() uint64 { return sequence.VerifCurrent() }
+
+// Server is a running gRPC server over a fresh container.
+type Server struct {
+	Addr   string
+	cancel context.CancelFunc
+	done   chan error
+	stop   func() error
+}
+
+// StartServer starts internal/app on a free loopback port.
+func StartServer(cfg config.Config) (*Server, error) {
+	lis, err := net.Listen("tcp", "127.0.0.1:0")
+	if err != nil {
+		return nil, err
+	}
+	port := lis.Addr().(*net.TCPAddr).Port
+	lis.Close()
+
+	cfg.Port = port
+	ctx, cancel := context.WithCancel(context.Background())
+
+	a, err := app.New(ctx, cfg)
+	if err != nil {
+		cancel()
+		return nil, err
+	}
+
+	s := &Server{Addr: fmt.Sprintf("127.0.0.1:%d", port), cancel: cancel, done: make(chan error, 1), stop: a.Stop}
+	go func() { s.done <- a.Run(ctx) }()
+
+	for i := 0; i < 2000; i++ {
+		conn, dErr := net.DialTimeout("tcp", s.Addr, 50*time.Millisecond)
+		if dErr == nil {
+			conn.Close()
+			return s, nil
+		}
+		time.Sleep(time.Millisecond)
+	}
+
+	s.Stop()
+	return nil, errors.New("verif: server did not start")
+}
+
+// Stop stops the server gracefully and closes its storage.
+func (s *Server) Stop() error {
+	s.cancel()
+	rErr := <-s.done
+	sErr := s.stop()
+
+	return errors.Join(rErr, sErr)
+}
+
+// Pool wraps the worker pool.
+type Pool struct{ p *wpool.Pool }
+
+// NewPool returns a worker pool that is not running yet.
+func NewPool(workers int, sendDuration time.Duration) *Pool {
+	return &Pool{p: wpool.New(wpool.Options{NumWorkers: workers, SendDuration: sendDuration})}
+}
+
+// Run starts the pool.
+func (p *Pool) Run(ctx context.Context) { p.p.Run(ctx) }
+
+// Stop stops the pool.
+func (p *Pool) Stop() { p.p.Stop() }
+
+// Send hands a job to the pool.
+func (p *Pool) Send(ctx context.Context, caller string, fn func(ctx context.Context) error) {
+	p.p.Send(ctx, wpool.Event{Caller: caller, Fn: fn})
+}
+
+// ReadWriter is the pipe behind Create.
+type ReadWriter interface {
+	io.Reader
+	io.Writer
+	Close() error
+	SetError(err error)
+	Add(delta int)
+	Done()
+}
+
+// NewReadWriter returns the asynchronous pipe behind Create.
+func NewReadWriter() ReadWriter { return async.NewReadWriter() }
+
+// NewVList returns a per-key version list.
+func NewVList(key string, withoutSearch bool) *modelCore.VList {
+	return modelCore.NewVList(key, withoutSearch)
+}
+
+// ServerError converts an error as the gRPC server does.
+func ServerError(err error) error { return adapterErrors.Error(err) }
+
+// ClientError converts an error as the gRPC client does.
+func ClientError(err error) error { return adapterErrors.ClientError(err) }
+
+type recProvider struct {
+	kv map[string][]byte
+}
+
+func (p *recProvider) RunTransaction(ctx context.Context, fn transactor.TransactionFn) error {
+	return fn(ctx)
+}
+func (p *recProvider) DB(context.Context) badger.QueryManager { return p }
+func (p *recProvider) Set(key []byte, val []byte) error {
+	p.kv[string(key)] = append([]byte(nil), val...)
+	return nil
+}
+func (p *recProvider) GetAll(prefix []byte) ([]badger.Item, error) {
+	keys := make([]string, 0, len(p.kv))
+	for k := range p.kv {
+		if len(k) >= len(prefix) && k[:len(prefix)] == string(prefix) {
+			keys = append(keys, k)
+		}
+	}
+	sort.Strings(keys)
+	items := make([]badger.Item, len(keys))
+	for i, k := range keys {
+		items[i] = badger.Item{Key: []byte(k), Value: p.kv[k]}
+	}
+	return items, nil
+}
+func (p *recProvider) Get(key []byte) ([]byte, error) {
+	v, ok := p.kv[string(key)]
+	if !ok {
+		return nil, fs_db.ErrNotFound
+	}
+	return v, nil
+}
+func (p *recProvider) Delete(key []byte) error {
+	delete(p.kv, string(key))
+	return nil
+}
+
+// Record is a version record.
+type Record struct {
+	Key, TxId, ContentId string
+	Seq                  uint64
+}
+
+// RecordStore is the version-record repository over an in-memory key-value provider.
+type RecordStore struct {
+	p *recProvider
+	r *fileRepo.Repo
+}
+
+// NewRecordStore returns an empty record store.
+func NewRecordStore() *RecordStore {
+	p := &recProvider{kv: make(map[string][]byte)}
+	return &RecordStore{p: p, r: fileRepo.New(p)}
+}
+
+// Set encodes and stores one record through the real repository.
+func (s *RecordStore) Set(r Record) error {
+	return s.r.Set(context.Background(), model.File{Key: r.Key, TxId: r.TxId, ContentId: r.ContentId, Seq: sequence.Seq(r.Seq)})
+}
+
+// Raw returns the stored key-value pairs.
+func (s *RecordStore) Raw() map[string][]byte { return s.p.kv }
+
+// PutRaw stores raw bytes under a raw key.
+func (s *RecordStore) PutRaw(key string, val []byte) { s.p.kv[key] = val }
+
+// GetAll decodes every stored record through the real repository.
+func (s *RecordStore) GetAll() ([]Record, error) {
+	fs, err := s.r.GetAll(context.Background())
+	if err != nil {
+		return nil, err
+	}
+	res := make([]Record, len(fs))
+	for i, f := range fs {
+		res[i] = Record{Key: f.Key, TxId: f.TxId, ContentId: f.ContentId, Seq: uint64(f.Seq)}
+	}
+	return res, nil
+}
+
+// Chunk is a stream message carrying bytes.
+type Chunk struct{ P []byte }
+
+// GetChunk returns the bytes.
+func (c *Chunk) GetChunk() []byte {
+	if c == nil {
+		return nil
+	}
+	return c.P
+}
+
+// RecvStream is the receiving side of a stream of chunks.
+type RecvStream interface {
+	Recv() (*Chunk, error)
+}
+
+// SendStream is the sending side of a stream of chunks.
+type SendStream interface {
+	Send(req *Chunk) error
+	CloseAndRecv() (*Chunk, error)
+}
+
+// NewStreamReader returns the server-side reader over a stream of chunks.
+func NewStreamReader(s RecvStream) io.Reader { return streamreader.New[*Chunk](s) }
+
+// NewStreamWriter returns the client-side writer over a stream of chunks.
+func NewStreamWriter(chunkSize int, s SendStream) io.WriteCloser {
+	return streamwriter.New[int, Chunk, Chunk](chunkSize, s, func(p []byte) *Chunk {
+		return &Chunk{P: append([]byte(nil), p...)}
+	})
+}
